@@ -98,6 +98,8 @@ class Enumerator(object):
         if cc is not None:
             path.conds = canon.simplify(path.conds + cc)
         else:
+            if canon.contradictory(path.conds + [(S.show(vterm), pred)]):
+                path.done = 'infeasible'  # the same value was already found not to match: nothing runs on this path
             path.conds = canon.simplify(path.conds + [(S.show(vterm), pred)])
 
     def needs_paths(self, e):
@@ -681,4 +683,4 @@ def table(ctx, fnpath, param_names=None):
         if param_names and i < len(param_names):
             nm = ('var', param_names[i], -(i + 1))
         en.ev.bind_pat(prm, nm, p.env)
-    return merge_rows(en.run(fn['hir'], p))
+    return merge_rows([x for x in en.run(fn['hir'], p) if x.done != 'infeasible'])
